@@ -3,6 +3,7 @@ CONSTANTS
   Weak_NoProofIndexBinding = FALSE
   Weak_AuntLenUnchecked = FALSE
   Weak_NoLeafCheck = FALSE
+  Weak_TruncatedPosition = FALSE
 INIT CaseInit
 NEXT CaseNext
 INVARIANTS CaseProofBinds CaseGenuineVerifies
